@@ -201,3 +201,44 @@ package selector
 //@   ensures[C10] forall j mathint :: 1 <= j && j < len(r.parentStack) ==> r.parentStack[j] == pc.parentStack[j-1]
 //@ func (Slice).Slice(n) (r, err)
 //@   requires n != nil
+
+// ---- segment iterators (C16): an iterator over the entries of a list or map value ----
+//@ ghost field SegmentIterator.src datamodel.Val
+//@ ghost field SegmentIterator.pos mathint mutable
+//@ func NewSegmentIterator(n) (it)
+//@   trusted
+//@   requires n != nil
+//@   assigns it.pos
+//@   ensures datamodel.isrec(n.val) ==> it != nil && fresh(it) && it.src == n.val && it.pos == 0
+//@ interface SegmentIterator.Next() (ps, v, err)
+//@   assigns recv.pos
+//@   ensures err == nil ==> 0 <= old(recv.pos) && old(recv.pos) < datamodel.vlen(recv.src) && recv.pos == old(recv.pos) + 1
+//@   ensures err == nil ==> v != nil && v.val == datamodel.vchild(recv.src, old(recv.pos))
+//@   ensures err == nil && datamodel.vkind(recv.src) == datamodel.Kind_List ==> ps.i == old(recv.pos)
+//@   ensures err == nil && datamodel.vkind(recv.src) == datamodel.Kind_Map ==> ps.i < 0 && ps.s == datamodel.vkeystr(recv.src, old(recv.pos))
+//@   ensures err != nil ==> recv.pos == old(recv.pos)
+//@ interface SegmentIterator.Done() (d)
+//@   assigns nothing
+//@   noalloc
+//@   ensures d == (recv.pos >= datamodel.vlen(recv.src))
+//@   ensures 0 <= recv.pos
+// The two implementations are thin wrappers over the node's own iterator (the interface-level
+// ghost state above is the wrapped iterator's).
+//@ func (listSegmentIterator).Next() (ps, v, err)
+//@   requires lsi.ListIterator != nil
+//@   assigns lsi.ListIterator.pos
+//@   ensures[C16] err == nil ==> ps.i == old(lsi.ListIterator.pos) && v != nil && v.val == datamodel.vchild(lsi.ListIterator.src, old(lsi.ListIterator.pos)) && lsi.ListIterator.pos == old(lsi.ListIterator.pos) + 1
+//@   ensures[C16] err != nil ==> lsi.ListIterator.pos == old(lsi.ListIterator.pos)
+//@ func (listSegmentIterator).Done() (d)
+//@   requires lsi.ListIterator != nil
+//@   assigns nothing
+//@   ensures[C16] d == (lsi.ListIterator.pos >= datamodel.vlen(lsi.ListIterator.src))
+//@ func (mapSegmentIterator).Next() (ps, v, err)
+//@   requires msi.MapIterator != nil && datamodel.vkind(msi.MapIterator.src) == datamodel.Kind_Map
+//@   assigns msi.MapIterator.pos
+//@   ensures[C16] err == nil ==> ps.i < 0 && ps.s == datamodel.vkeystr(msi.MapIterator.src, old(msi.MapIterator.pos)) && v != nil && v.val == datamodel.vchild(msi.MapIterator.src, old(msi.MapIterator.pos)) && msi.MapIterator.pos == old(msi.MapIterator.pos) + 1
+//@   ensures[C16] err != nil ==> msi.MapIterator.pos == old(msi.MapIterator.pos)
+//@ func (mapSegmentIterator).Done() (d)
+//@   requires msi.MapIterator != nil
+//@   assigns nothing
+//@   ensures[C16] d == (msi.MapIterator.pos >= datamodel.vlen(msi.MapIterator.src))
